@@ -122,6 +122,8 @@ type c06Hostile struct {
 	FlipBit   int      `json:"flip_bit"`
 	AllFlips  bool     `json:"all_flips"`
 	LeadOnes  int      `json:"lead_ones"`
+	AliasPos  int      `json:"alias_pos"`
+	AliasKind int      `json:"alias_kind"`
 }
 
 func c06Judge(s string, o *Obs) error {
@@ -175,6 +177,10 @@ func evalC06Hostile(c c06Hostile, o *Obs) error {
 	for i := 0; i < c.LeadOnes; i++ {
 		s = "1" + s
 	}
+	if c.AliasPos >= 0 {
+		s = applyAlias(s, c.AliasPos, c.AliasKind)
+		o.Class("C06:character-alias")
+	}
 	if err := c06Judge(s, o); err != nil {
 		return err
 	}
@@ -203,7 +209,7 @@ func evalC06Hostile(c c06Hostile, o *Obs) error {
 }
 
 func genC06Hostile(t *rapid.T) c06Hostile {
-	c := c06Hostile{FlipBit: -1, Recompute: true}
+	c := c06Hostile{FlipBit: -1, Recompute: true, AliasPos: -1}
 	netID := rapid.SampledFrom([]byte{0x80, 0xef, 0x64, 0x00, 0xff}).Draw(t, "netid")
 	var key []byte
 	switch rapid.IntRange(0, 5).Draw(t, "key_cls") {
@@ -228,6 +234,9 @@ func genC06Hostile(t *rapid.T) c06Hostile {
 			body = append(body, rapid.Byte().Draw(t, "extra"))
 		}
 		body = body[:n]
+		if n > 34 && rapid.Bool().Draw(t, "marker_in_long") { // over-long payload that still carries the compression marker
+			body[33] = 1
+		}
 	case 4:
 		c.FlipBit = rapid.IntRange(0, 38*8-1).Draw(t, "flip")
 		if rapid.Bool().Draw(t, "cmp") {
@@ -240,6 +249,12 @@ func genC06Hostile(t *rapid.T) c06Hostile {
 		c.LeadOnes = rapid.IntRange(1, 3).Draw(t, "ones")
 	case 7:
 		c.AllFlips = rapid.IntRange(0, 3).Draw(t, "allflips") == 0
+		if rapid.Bool().Draw(t, "cmp") {
+			body = append(body, 1)
+		}
+	case 8:
+		c.AliasPos = rapid.IntRange(0, 60).Draw(t, "alias_pos")
+		c.AliasKind = rapid.IntRange(0, 5).Draw(t, "alias_kind")
 		if rapid.Bool().Draw(t, "cmp") {
 			body = append(body, 1)
 		}
@@ -280,11 +295,11 @@ func TestC06(t *testing.T) {
 		if len(ev.harnessErrors) > 0 {
 			return
 		}
-		kC06RT.Run(t, ev, perShard(pick(2500, 250000)))
-		kC06Hostile.Run(t, ev, perShard(pick(4000, 400000)))
-		kC06Str.Run(t, ev, perShard(pick(1000, 100000)))
+		kC06RT.Run(t, ev, perShard(pick(2500, 1200000)))
+		kC06Hostile.Run(t, ev, perShard(pick(4000, 2000000)))
+		kC06Str.Run(t, ev, perShard(pick(1000, 500000)))
 		ev.requireClasses("C06:accepted", "C06:rejected", "C06:rt-leading-zero-bytes", "C06:all-single-bit-flips",
 			"C06:checksum-recomputed/decoded-len=37", "C06:checksum-recomputed/decoded-len=38", "C06:checksum-recomputed/decoded-len=36",
-			"C06:rt-net=simnet", "C06:rt-net=mainnet")
+			"C06:rt-net=simnet", "C06:rt-net=mainnet", "C06:character-alias", "C06:checksum-recomputed/decoded-len=40")
 	})
 }
